@@ -13,7 +13,7 @@ from vf.fixtures import CompA, CompB, CompC, CompF, check, sized_lists, wone_of
 PROPERTY = "C04"
 LEVEL = "fault_enumeration"
 BUDGET = {"quick": 1200, "thorough": 4000}
-RULE = ("One environment (plain, continuous SpaceWorld, DiscreteWorld, LineWorld, GridWorld; extents 0 or >= 1 per axis, "
+RULE = ("One environment (plain, continuous SpaceWorld, DiscreteWorld, LineWorld, GridWorld; extents 0 or >= 1 per axis, continuous extents also fractional below 1, "
         "non-cubic), 7 agent OBJECTS over 4 ids (colliding ids) with fixed component sets; histories (1-30 ops) of add(obj[, "
         "pos in range / on the far boundary / out of bounds on a chosen positive axis and side]), remove(id present/unknown), "
         "get_agent(id[, strict]). After EVERY op the full observable state (iteration order, len, get_agents(), get_agent of "
@@ -283,8 +283,8 @@ def strategy(tier):
     ext0 = lambda hi: wone_of(st.just(0), st.integers(1, hi))
     env = wone_of(
         st.just({"kind": "plain"}),
-        st.builds(lambda a, b, c, w: {"kind": "space", "ext": [a, b, c], "wrap": w}, st.sampled_from([0, 8, 20, 40, 64]),
-                  st.sampled_from([0, 8, 12, 40]), st.sampled_from([0, 8, 24]), st.booleans()),
+        st.builds(lambda a, b, c, w: {"kind": "space", "ext": [a, b, c], "wrap": w}, st.sampled_from([0, 4, 8, 20, 40, 64]),
+                  st.sampled_from([0, 6, 8, 12, 40]), st.sampled_from([0, 2, 8, 24]), st.booleans()),
         st.builds(lambda a, b, c, w: {"kind": "discrete", "ext": [a, b, c], "wrap": w}, ext0(5), ext0(4), ext0(3), st.booleans()),
         st.builds(lambda a, w: {"kind": "line", "ext": [a, 0, 0], "wrap": w}, st.integers(1, 8), st.booleans()),
         st.builds(lambda a, b, w: {"kind": "grid", "ext": [a, b, 0], "wrap": w}, st.integers(1, 6), st.integers(1, 5), st.booleans()),
